@@ -117,6 +117,8 @@ def launch(vh, driver, np, seed, tier, lo, hi, wdir, tag, env_extra, timeout, ex
                 pass
             res["rc"] = p.wait()
             subprocess.run(["pkill", "-9", "-f", out], stdout=subprocess.DEVNULL, stderr=subprocess.DEVNULL)
+            for sd in glob.glob(os.path.join(os.environ.get("TMPDIR", "/tmp"), "ompi.*", "pid.%d" % p.pid)):
+                shutil.rmtree(sd, ignore_errors=True)      # session directory of the killed mpiexec (8 MB each, never reclaimed otherwise)
     res["wall"] = (time.monotonic_ns() - t0) / 1e9
     res["ranks"] = {}
     for r in range(np):
